@@ -19,7 +19,8 @@ impl<U> Error<U> {
         match self {
             Error::Io(io) => Error::Io(io),
             Error::InvalidCompressionType => Error::InvalidCompressionType,
-            _ => panic!("cannot convert a merge error"),
+            Error::InvalidFormatVersion => Error::InvalidFormatVersion,
+            Error::Merge(_) => panic!("cannot convert a merge error"),
         }
     }
 }
